@@ -623,14 +623,20 @@ def r4_writeback(rep, src):
     rep.saw_func(f)
     mod = src.mod(PM)
     scen = [
-        # name, tokens (kind, text), parser reports an error, expected: ('ok' | 'ValueError'), newline must be appended
+        # name, tokens (kind, text), parser reports an error | shape of the re-parse (paragraphs, fields), expected: ('ok' | 'ValueError'), newline must be appended
         ('a value that ends with a newline', [('V', 'a'), ('N', '\n')], False, 'ok', False),
         ('a value without final newline', [('V', 'a')], False, 'ok', True),
-        ('only blanks and comments', [('W', ' '), ('C', '# c\n')], False, 'ValueError', None),
         ('a comment as last token', [('V', 'a'), ('N', '\n'), ('C', '# c\n')], False, 'ValueError', None),
+        ('blanks and a comment as last token', [('W', ' '), ('C', '# c\n')], False, 'ValueError', None),
         ('text the parser rejects', [('V', 'a'), ('N', '\n')], True, 'ValueError', False),
+        ('text that re-parses as two fields', [('V', 'a\nX: y'), ('N', '\n')], (1, 2), 'ValueError', False),
+        ('text that re-parses as two paragraphs', [('V', 'a\n\nX: y'), ('N', '\n')], (2, 1), 'ValueError', False),
+        # the list became empty (its last value was removed): an empty field is valid and is read back as the empty list
+        ('a list without values (a blank and the line end)', [('W', ' '), ('N', '\n')], False, 'ok', False),
     ]
     for name, toks, perr, want, want_nl in scen:
+        shape = perr if isinstance(perr, tuple) else (1, 1)
+        perr = perr is True
         log = []
 
         def parse(it, args, kw, log=log, perr=perr):
@@ -655,11 +661,16 @@ def r4_writeback(rep, src):
         kv = heap.alloc('Deb822KeyValuePairElement', {'field_name': 'F', 'value_element': old}, name='@field')
         newv = heap.alloc('Deb822ValueElement', {}, name='@new_value')
         heap.newkv = heap.alloc('Deb822KeyValuePairElement', {'field_name': 'F', 'value_element': newv}, name='@new_field')
-        para = heap.alloc('Deb822NoDuplicateFieldsParagraphElement', {}, name='@reparsed_paragraph')
+        para = heap.alloc('Deb822NoDuplicateFieldsParagraphElement', {'kvpair_count': shape[1]}, name='@reparsed_paragraph')
+        more = [heap.alloc('Deb822NoDuplicateFieldsParagraphElement', {'kvpair_count': 1}, name='@reparsed_paragraph%d' % i_) for i_ in range(2, shape[0] + 1)]
         heap.hooks['.__iter__'] = None
         del heap.hooks['.__iter__']
         heap.hooks['next'] = lambda it, a, k: para
         heap.hooks['iter'] = lambda it, a, k: a[0]
+        # the paragraphs of the re-parsed file, however they are asked for (list(file) / iteration)
+        heap.hooks['list'] = lambda it, a, k, para=para, more=more: it.h.new_list([para] + more) if isinstance(a[0], H.Ref) and it.h.objs[a[0].name]['__class__'] == 'Deb822FileElement' else it.h.new_list(it.seq(a[0]))
+        heap.hooks['.__len__'] = None
+        del heap.hooks['.__len__']
         view = heap.alloc(CLS, {'_kvpair_element': kv, '_token_list': lst, '_changed': True, '_format_preserve_original_formatting': True}, name='@view')
         what = 'write-back of %s' % name
         try:
